@@ -6,7 +6,7 @@ from sexpr import enc, hexs
 from odata_query import ast
 
 import os
-PROP_MODS = ["ODataVerif.Tie.Sql", "ODataVerif.Tie.SqlTemplates", "ODataVerif.Tie.ParserTables", "ODataVerif.Props.C07", "ODataVerif.Props.C07Lex", "ODataVerif.Props.C07Shape", "ODataVerif.Props.C06Image"]
+PROP_MODS = ["ODataVerif.Props.Accepted", "ODataVerif.Tie.Sql", "ODataVerif.Tie.SqlTemplates", "ODataVerif.Tie.ParserTables", "ODataVerif.Props.C07", "ODataVerif.Props.C07Lex", "ODataVerif.Props.C07Shape", "ODataVerif.Props.C06Image"]
 BENIGN = "x"
 KF_ESCAPE = "C07:sql/base.py:_to_pattern:escape-clause"
 
